@@ -275,6 +275,8 @@ func (m *Machine) vrtCall(name string, a []Value) Value {
 		return c.IntI(SI64, m.allocBytes)
 	case "IsSymbolic":
 		return c.Bool(true)
+	case "SameBits32":
+		return c.Eq(c.FBits(a[0].(*Term)), c.FBits(a[1].(*Term)))
 	case "SameBits":
 		// exact bit equality of two float64 (NaN payloads included)
 		return c.Eq(c.FBits(a[0].(*Term)), c.FBits(a[1].(*Term)))
